@@ -81,7 +81,7 @@ _PATCHES = None
 def patches():
     global _PATCHES
     if _PATCHES is None:
-        _PATCHES = ice.jwe_patches() + ice.ec_import_patches() + ice.okp_import_patches()
+        _PATCHES = ice.jwe_patches() + ice.ec_import_patches() + ice.okp_import_patches() + ice.keygen_patches()
     return _PATCHES
 
 
@@ -212,16 +212,6 @@ def _compact(mode_i, enc_i, iv_i, tag_i, ek_present, cek_i, has_zip, epk_bad, v0
     if obj is None:
         return True
     return judge_compact(env, obj, sc)
-
-
-def _mk(mode_i):
-    def f(enc_i: int, iv_i: int, tag_i: int, ek_present: bool, cek_i: int, has_zip: bool, epk_bad: int, v0: bool, v1: bool) -> bool:
-        """
-        pre: 0 <= enc_i <= 1 and 0 <= iv_i <= 3 and 0 <= tag_i <= 3 and 0 <= cek_i <= 2 and 0 <= epk_bad <= 2
-        post: _
-        """
-        return _compact(mode_i, enc_i, iv_i, tag_i, ek_present, cek_i, has_zip, epk_bad, v0, v1)
-    return f
 
 
 def compact_dir(enc_i: int, iv_i: int, tag_i: int, ek_present: bool, has_zip: bool, v0: bool) -> bool:
